@@ -21,7 +21,7 @@ func VH_C20_bookkeeping() {
 	w := vhNewWorld()
 	aa, ab := vhLogged("a"), vhLogged("b")
 	a := w.spawn(w.root, "a", aa)
-	b := w.spawn(w.root, "b", ab)
+	b := w.spawn(w.root, "a1", ab) // its path has the other owner's path as a string prefix
 	refs := []string{"r1", "r2"}
 	owners := []*Context{a, b}
 	var live [2][2]bool // [owner][ref]
